@@ -57,6 +57,8 @@ BODIES = {
     'ldexp': [('ldexp_body', None)],
 }
 NEAREST = ('RNE', 'RNA')
+# who calls whom (callers inherit the suspicion of an unproved callee)
+CALLS = {'classic_2mul': ['veltkamp_split'], 'classic_2fma': ['fast_2mul', 'classic_2sum', 'fast_2sum']}
 
 
 # ---------------------------------------------------------------- exporter (FPy AST -> coq/Lib/Eft.v terms)
@@ -226,23 +228,28 @@ class Exporter:
 
 
 def export_library():
-    """Returns the text of GenLib.v (raises ExportError)."""
+    """Returns (text of GenLib.v, {function: why it could not be exported}).  A function
+    outside the modelled fragment is left out of gen_lib (as is every function that calls
+    it); a failure of the helpers the model treats as primitives raises ExportError."""
     from fpy2.libraries import core, eft
     ex = Exporter((eft, core))
     fns = [(n, getattr(eft, n)) for n in EFT_FUNCS] + [('ldexp', core.ldexp)]
-    for n, f in fns:
-        if not isinstance(f, ex.Function) or f.ast.name != n:
-            raise ExportError(f'{n} is not an FPy function of that name')
-        ex.register(n, f)
     out = ['(* REGENERATED from fpy2/libraries/eft.py and core.py by harness/props/c20.py -- do not edit *)',
            'From Coq Require Import ZArith List Bool String.',
            'From FpyV Require Import Num.RealFloat Lib.Eft.',
            'Import ListNotations.', 'Open Scope Z_scope.', 'Open Scope string_scope.', '']
-    for n, f in fns:
-        out.append(f'Definition gen_{n} : fn :=\n  {ex.function(f)}.\n')
-    out.append('Definition gen_lib : prog :=\n  [' + ';\n   '.join(f'("{n}", gen_{n})' for n, _ in fns) + '].')
-    return '\n'.join(out) + '\n'
-
+    done, failed = [], {}
+    for n, f in fns:      # callees come before their callers in this order
+        try:
+            if not isinstance(f, ex.Function) or f.ast.name != n:
+                raise ExportError(f'{n} is not an FPy function of that name')
+            out.append(f'Definition gen_{n} : fn :=\n  {ex.function(f)}.\n')
+            ex.register(n, f)
+            done.append(n)
+        except ExportError as e:
+            failed[n] = str(e)
+    out.append('Definition gen_lib : prog :=\n  [' + ';\n   '.join(f'("{n}", gen_{n})' for n in done) + '].')
+    return '\n'.join(out) + '\n', failed
 
 
 # ---------------------------------------------------------------- the Python primitives: source fingerprints
@@ -567,10 +574,13 @@ def report(ck, what, replay, key=None, cap=5):
 # ---------------------------------------------------------------- the check
 def match_bodies(ck):
     """(A) regenerate the library program from /repo and match every body against the
-    proved (or known-defective) bodies of coq/Lib/Eft.v.  Returns (have_lib, recognised)."""
+    proved (or known-defective) bodies of coq/Lib/Eft.v.  Returns (have_lib, recognised, exported)."""
     recognised = {}     # fname -> (body name, key)
+    failed = {}
     try:
-        text = export_library()
+        text, failed = export_library()
+        for n, why in failed.items():
+            ck.broken.append(f'exporter: {n}: {why}'[:400])
     except ExportError as e:
         ck.broken.append(f'exporter: {e}')
         text = None
@@ -588,6 +598,8 @@ def match_bodies(ck):
         probe = hdr + ('Ltac probe n t := first [ assert t by (vm_compute; reflexivity); idtac "BODY-IS" n | idtac "BODY-ISNOT" n ].\n'
                        'Goal True.\n')
         for fname, cands in BODIES.items():
+            if fname in failed:
+                continue
             for body, _ in cands:
                 probe += f'  probe "{fname}:{body}" (lookup "{fname}" gen_lib = Ok {body}).\n'
         probe += '  exact I.\nQed.\n'
@@ -607,6 +619,8 @@ def match_bodies(ck):
         # step 2: the lemmas themselves (Leibniz equality, checked by the kernel)
         lem = hdr
         for fname, cands in BODIES.items():
+            if fname in failed:
+                continue
             hit = [(b, k) for (b, k) in cands if f'{fname}:{b}' in isb]
             if hit:
                 recognised[fname] = hit[0]
@@ -626,7 +640,7 @@ def match_bodies(ck):
         ck.extra['bodies'] = {k: v[0] for k, v in recognised.items()}
         ck.log('bodies recognised as known-defective: ' + (', '.join(f'{k}={v[0]}' for k, v in recognised.items() if v[1]) or 'none'))
 
-    return have_lib, recognised
+    return have_lib, recognised, set(BODIES) - set(failed)
 
 
 def run(ck):
@@ -650,7 +664,15 @@ def run(ck):
         ck.props('Props/C20.v')
 
     # ---------------- (A) regenerate the library program and match bodies
-    have_lib, recognised = match_bodies(ck)
+    have_lib, recognised, exported = match_bodies(ck)
+    # functions whose body in /repo is not (known to be) a proved or known-defective body, and
+    # their callers: the theorems say nothing about them, so the failing-input search below is
+    # widened for exactly these (more precisions, odd ones included)
+    suspects = {f for f in BODIES if f not in recognised}
+    suspects |= {f for f, cs in CALLS.items() if suspects & set(cs)}
+    if suspects:
+        ck.log('no theorem applies to: ' + ', '.join(sorted(suspects)) + ' -- widening the failing-input search for them')
+    ck.extra['suspect_functions'] = sorted(suspects)
 
     def key_for(fname, out, verdict):
         """Known-finding key for a failure of exactly a recognised defective body."""
@@ -772,6 +794,36 @@ def run(ck):
         for rm in (['RNE', 'RTP'] if not thorough else any_modes[:4]):
             add_jobs((kind, p, emin, rm), 'ideal_fma', tr3_id)
 
+    # ---- widened search for the functions no theorem applies to (normally none)
+    if suspects:
+        def window(kind, p, emin, lo, hi, cap):
+            vals = fmt_values(kind, p, emin, lo, hi)
+            step = max(1, len(vals) ** 2 // cap)
+            return vals, vals[rng.randrange(step)::step]
+
+        for f in sorted(suspects):
+            if f in ('classic_2mul', 'veltkamp_split'):
+                # splitting-based: the split point depends on the parity of p -- 4..7, two odd precisions
+                wide = [('mp', 4, None, 0, 1), ('mp', 5, None, 0, 1), ('mp', 6, None, 0, 1), ('mp', 7, None, 0, 1), ('mps', 5, -12, 0, 1)]
+            else:
+                wide = [('mp', 5, None, -2, 2), ('mps', 5, -2, -2, 2), ('mp', 6, None, -1, 1), ('mp', 7, None, 0, 1)]
+            modes = NEAREST if f in pair_fns_near + ['classic_2fma', 'veltkamp_split'] else ('RNE', 'RNA', 'RTP', 'RTZ')
+            for kind, p, emin, lo, hi in wide:
+                if f == 'veltkamp_split':
+                    vals = fmt_values(kind, p, emin, lo, hi)
+                    sid = reg_args([(a, (False, 0, sp)) for a in vals for sp in range(1, p + 1)])
+                elif f == 'ldexp':
+                    vals = fmt_values(kind, p, emin, lo, hi)
+                    sid = reg_args([(a, (n < 0, 0, abs(n))) for a in vals for n in (-9, -4, -1, 0, 1, 3, 6)])
+                elif f in ('ideal_fma', 'classic_2fma'):
+                    vals = fmt_values(kind, p, emin, lo, hi)
+                    sid = reg_args([(rng.choice(vals), rng.choice(vals), rng.choice(vals)) for _ in range(5000)])
+                else:
+                    vals, bs = window(kind, p, emin, lo, hi, 8000)
+                    sid = reg_args([(a, b) for a in vals for b in bs])
+                for rm in modes:
+                    add_jobs((kind, p, emin, rm), f, sid)
+
     total = sum(j[4] - j[3] for j in jobs)
     ck.log(f'{total} library calls in {len(jobs)} jobs')
     coq_budget = 300000 if thorough else 9000
@@ -799,7 +851,7 @@ def run(ck):
             for args, out in r['nar']:
                 ck.violation(f'{fname} returned a non-finite value on finite operands of an unbounded-exponent format',
                              {'ctx': desc, 'args': [str(frac(a)) for a in args], 'got': out})
-            if have_lib:
+            if have_lib and fname in exported and all(c in exported for c in CALLS.get(fname, [])):
                 for t, args, out in r['terms']:
                     terms.append(t)
                     meta.append((desc, fname, args, out))
